@@ -263,6 +263,42 @@ static Verdict run_c05(const Case &c)
         labels.push_back("S:" + std::to_string(off) + ":" + hex(bytes{(uint8_t)val}));
       }
   }
+  else if (kind == "hdr2")
+  {
+    // two alterations at once: a mode byte (offset 8 or 9, every value) AND something that carries information - a
+    // flipped bit in the IV table or the ciphertext, a dropped or a doubled last block. Whatever the code concludes
+    // from the mode byte (an unknown hash, another cipher), the second alteration must not get through with it.
+    size_t pos = 48 + (size_t)(c.geti("hpos") % (long)(base.size() - 48));
+    uint8_t bit = (uint8_t)(1 << (c.geti("hpos") % 8));
+    for (int off : {8, 9})
+      for (int val = 0; val < 256; val++)
+      {
+        if (base[off] == val)
+          continue;
+        bytes f = base;
+        f[off] = (uint8_t)val;
+        std::string lab = "S:" + std::to_string(off) + ":" + hex(bytes{(uint8_t)val});
+        int second = (val + off + (int)c.geti("hpos")) % 4;
+        if (second <= 1)
+        {
+          f[pos] ^= bit;
+          lab += ";X:" + std::to_string(pos) + ":" + std::to_string(bit);
+        }
+        else if (second == 2)
+        {
+          f.resize(f.size() - 16);
+          lab += ";T:" + std::to_string(f.size());
+        }
+        else
+        {
+          bytes last(f.end() - 16, f.end());
+          f.insert(f.end(), last.begin(), last.end());
+          lab += ";A:" + hex(last);
+        }
+        files.push_back(f);
+        labels.push_back(lab);
+      }
+  }
   else
   {
     files.push_back(apply_edits(base, c.get("edits")));
@@ -386,9 +422,15 @@ static Case gen_c05()
     c.set("kind", "truncs");
     return c;
   }
-  if (k < 12)
+  if (k < 10)
   {
     c.set("kind", "hdr");
+    return c;
+  }
+  if (k < 12)
+  {
+    c.set("kind", "hdr2");
+    c.seti("hpos", g::range(0, 1000000));
     return c;
   }
   if (k < 17)
@@ -494,7 +536,7 @@ static void fixed_c05(Ctx &ctx)
   // exhaustive single-bit flips, truncations and mode-byte sweeps of one small file per (cmode, hmode)
   for (int cm = 0; cm < 5; cm++)
     for (int hm = 0; hm < 3; hm++)
-      for (const char *kind : {"bitflips", "truncs", "hdr", "tagforge", "ext", "ext/tool", "relkey"})
+      for (const char *kind : {"bitflips", "truncs", "hdr", "hdr2", "tagforge", "ext", "ext/tool", "relkey"})
       {
         if (!mine(ctx, i++))
           continue;
